@@ -265,6 +265,29 @@ theorem go_user_code_never_crashes (known : List String) (t : List Facts.OpFact)
     `Future` was the one exception and is repaired (fix commit 8bf73dd) -/
 theorem go_statements_recovered : goOK [] RoGen.Catalogue.table = true := by decide
 
+/-- every goroutine the library starts (`go` statement) runs under `recoverUnhandledError`, whether or not its body
+    calls a user function directly: each of them sends notifications or registers / releases subscriptions, so a
+    TEARDOWN that panics — re-raised by `Unsubscribe` to whoever triggered it (C03) — can surface on it (ToChannel
+    registering its upstream subscription on a subscription disposed in the meantime; ThrowOnContextCancel / Never
+    sending the terminal on context cancellation; repaired by /repo 2d51ab1, before which such a panic killed the
+    process) -/
+def allGoRecovered (t : List Facts.OpFact) : Bool :=
+  t.all (fun r => r.goStmts.all (fun g => !(g.kind == "go") || g.recovered))
+
+theorem every_goroutine_recovered : allGoRecovered RoGen.Catalogue.table = true := by decide
+
+/-- … hence whatever is raised on a library goroutine (user code or a re-raised teardown panic) goes to the
+    unhandled-error hook, never to the runtime -/
+theorem library_goroutine_never_crashes (r : Facts.OpFact) (hr : r ∈ RoGen.Catalogue.table) (g : Facts.GoFact)
+    (hg : g ∈ r.goStmts) (hk : g.kind = "go") (p : Option Err) : ∀ e, goBody g.recovered p ≠ .crash e := by
+  have h1 := List.all_eq_true.mp every_goroutine_recovered r hr
+  have h2 := List.all_eq_true.mp h1 g hg
+  have hrec : g.recovered = true := by
+    rw [hk] at h2
+    simpa using h2
+  rw [hrec]
+  exact goBody_recovered p
+
 /-- what a bare goroutine would mean at run time (the state of `Future` before 8bf73dd) -/
 theorem bare_goroutine_crashes (p : Err) : goBody false (some p) = .crash p := rfl
 
@@ -437,6 +460,8 @@ end Ro.C07
 #print axioms Ro.C07.goOK_sound
 #print axioms Ro.C07.go_user_code_never_crashes
 #print axioms Ro.C07.go_statements_recovered
+#print axioms Ro.C07.every_goroutine_recovered
+#print axioms Ro.C07.library_goroutine_never_crashes
 #print axioms Ro.C07.bare_goroutine_crashes
 #print axioms Ro.C07.future_factory_panic
 #print axioms Ro.C07.future_factory_returns
